@@ -717,8 +717,8 @@ func wantBits(spec string) BV {
 		case tok == "1":
 			msb = append(msb, bit{K: b1})
 		case strings.Contains(tok, "["):
-			name := tok[:strings.Index(tok, "[")]
-			rng := strings.TrimSuffix(tok[strings.Index(tok, "[")+1:], "]")
+			name := tok[:strings.LastIndex(tok, "[")]
+			rng := strings.TrimSuffix(tok[strings.LastIndex(tok, "[")+1:], "]")
 			hi, lo := 0, 0
 			if strings.Contains(rng, "..") {
 				fmt.Sscanf(rng, "%d..%d", &hi, &lo)
